@@ -209,7 +209,10 @@ def _e2e_worker(job):
     line = st.lists(st.sampled_from([b"x", b".", b"..", b"\r", b"a b", b"Received: q", b".x", b"\xe9", b""]), max_size=4).map(b"".join).map(vlib.jsonable)
     scen = st.fixed_dictionaries({"lines": st.lists(line, max_size=8), "cuts": st.lists(st.integers(0, 400), max_size=2), "second": st.booleans(),
                                   # control/databytes around the size of the message: a message over the limit may be refused, never cut short
-                                  "db": st.one_of(st.none(), st.none(), st.integers(1, 40))})
+                                  "db": st.one_of(st.none(), st.none(), st.integers(1, 40)),
+                                  # the queue program cannot be started for the first DATA (one of the three pipe() calls or the fork() fails):
+                                  # the client must not be invited to send the message - there is no one to take it
+                                  "qqfail": st.one_of(st.none(), st.none(), st.none(), st.sampled_from([["pipe", 0], ["pipe", 1], ["pipe", 2], ["fork", 0]]))})
     stats = vlib.Stats()
     h = sandbox.Home(tree, os.path.join(vlib.scratch_root(), "c05e2e-%d" % wid))
     h.control("me", "me.example\n")
@@ -229,9 +232,33 @@ def _e2e_worker(job):
         rest = b"NOOP\r\n" + (b"MAIL FROM:<b@x>\r\nRCPT TO:<c@me.example>\r\nDATA\r\n" if sc["second"] else b"")
         env = h.env(role="smtpd", uid=h.uids["d"], trace=False, QMAILQUEUE=sandbox.STANDIN, TCPREMOTEIP="1.2.3.4",
                     **sandbox.standin_env(rec, read="01", qq=True))
+        qf = sc.get("qqfail")
+        if qf:
+            env["VSHIM_FAULT"] = "qmail-smtpd:%s:%d:24" % (qf[0], qf[1])
         s = sandbox.Session([tree.path("qmail-smtpd")], env)
         try:
             s.send(b"MAIL FROM:<a@x>\r\nRCPT TO:<r@me.example>\r\nDATA\r\n")
+            if qf:
+                # greeting, MAIL, RCPT, then the answer to DATA: a temporary refusal and nothing else
+                got = s.read_until(lambda b: (b.count(b"\n") >= 4 and len(b)) or None)
+                if got is None:
+                    stats.inconclusive += 1
+                    return None
+                s.send(b"QUIT\r\n")
+                rest = s.read_all()
+                if rest is None:
+                    stats.inconclusive += 1
+                    return None
+                codes = [l[:3] for l in (got + rest).split(b"\r\n") if l]
+                stats.case(scenario=sc, nontrivial=True, classes=["e2e", "e2e_queue_program_cannot_start"])
+                if b"354" in codes:
+                    return ("DATA was answered 354 although the queue program could not be started (%s #%d fails): the client is invited to send a message "
+                            "that the server will read as commands; replies %r" % (qf[0], qf[1], codes))
+                if codes[:4] != [b"220", b"250", b"250", b"451"] and not (len(codes) >= 4 and codes[3][:1] == b"4"):
+                    return "replies %r, expected a temporary refusal of DATA when the queue program cannot be started" % codes
+                if [r_ for r_ in sandbox.standin_records(rec) if r_.get("commit")]:
+                    return "a message was committed although the queue program could not be started"
+                return None
             got = s.read_until(lambda b: (b.find(b"354") >= 0 and b.endswith(b"\n") and len(b)) or None)
             if got is None:
                 stats.inconclusive += 1
